@@ -43,3 +43,5 @@ def handle (toks : List String) : String :=
   | _ => "bad-op"
 
 end Ruma.Driver.C04
+
+def main : IO Unit := Ruma.Proto.runDriver Ruma.Driver.C04.handle
